@@ -1,4 +1,5 @@
 """C10 — I/O faults and the input-size cap are never swallowed (DESIGN §4 C10)."""
+import re
 from ..mir import norm, sym_contains, MissingAnchor
 from ..rules import (render, compares, aggregates, must_pass, bool_switches, discards, switch_edges,
                      STRICT_REJECT_FORMS, last_seg)
@@ -35,22 +36,24 @@ def rule_chariter(ctx, fx, config):
     for b, i, adt, var, fl, ops, s_ in aggregates(f):
         if s_["p"]["l"] == 0 and not s_["p"]["pr"] and adt.endswith("option::Option") and var == "None":
             nones.append((b, s_.get("ln")))
-    # the EOF exemption: the edge `kind() == UnexpectedEof` after the *first* read
-    ek = fx.adt("std::io::ErrorKind")
-    eof_idx = [v["name"] for v in ek["variants"]].index("UnexpectedEof")
+    # the EOF exemption: the `Ok(0)` edge of the *first* read (the read of a character's first byte that returns no byte at
+    # all).  An `Err` of whatever kind is the reader reporting a failure — `read_exact`'s UnexpectedEof cannot be told from a
+    # reader failing with UnexpectedEof itself (F59) — so no edge on an error's kind() may lead to a silent `None`.
+    reads = [b for b, t in f.calls() if last_seg(fx.callee_decl(t)) in ("read", "read_exact")]
+    first_reads = [b for b in reads if not any(f.dominates(o, b) for o in reads if o != b)]
+    more_reads = [b for b in reads if b not in first_reads]
     eof_targets = set()
     for b in sorted(f.live_blocks):
         t = f.blocks[b]["term"]
-        if t["k"] != "switch":
+        if t["k"] != "switch" or 0 not in t["vals"]:
             continue
         with f.deep():
             sym = f.sym_operand(t["o"])
-        if sym[0] == "discr" and sym[1][0] == "call" and sym[1][1] == "std::io::Error::kind":
-            for v, tg in zip(t["vals"], t["tgts"]):
-                if v == eof_idx and t["tgts"].count(tg) == 1:
-                    eof_targets.add(tg)
-    first_reads = [b for b, t in f.calls() if last_seg(fx.callee_decl(t)) == "read_exact"]
-    more_reads = [b for b, t in f.calls() if last_seg(fx.callee_decl(t)) == "read"]
+        r = render(sym)
+        if sym[0] not in ("discr", "bin", "un") and re.search(r"@(Ok|Continue)\.0$", r) and sym_contains(sym, lambda x: x[0] == "call" and len(x) > 3 and x[3] in first_reads):
+            tg = t["tgts"][t["vals"].index(0)]
+            if t["tgts"].count(tg) == 1:
+                eof_targets.add(tg)
     n_exempt = 0
     k = 0
     for b, ln in nones:
@@ -62,7 +65,7 @@ def rule_chariter(ctx, fx, config):
         eof = any(f.dominates(tg, b) for tg in eof_targets) and any(f.dominates(r, b) for r in first_reads) and not any(f.dominates(r, b) for r in more_reads)
         if eof:
             n_exempt += 1
-            ctx.ok("CHARITER", key, "true EOF: `None` under kind()==UnexpectedEof of the first-byte read", config, ctx.where(f, ln=ln))
+            ctx.ok("CHARITER", key, "true EOF: `None` on the Ok(0) edge of the first-byte read", config, ctx.where(f, ln=ln))
         else:
             ctx.bad("CHARITER", "C10:CHARITER:silent-none:after-%s" % ("continuation-read" if any(f.dominates(r, b) for r in more_reads) else "first-read"),
                     "the char iterator returns `None` (line %s) without storing an error: the parser sees a clean end of input and a value is built from the truncated prefix" % ln, config, ctx.where(f, ln=ln))
@@ -366,6 +369,43 @@ def rule_skip_end(ctx, fx, config):
     ctx.floor("IOCHECK.skip-end-sites", n, 1, config)
 
 
+def rule_failure_latched(ctx, fx, config):
+    """LATCH: the stored I/O error is handed out once (take), so the fact that the input failed has to be remembered
+    separately: every path of io_error() that returns the error sets the latch first, and skip_to_next_document() — the
+    iterators' way to recover from a *document* error — pulls nothing and reports "no next document" once the latch is set.
+    Otherwise the iterators go on after a reader failure / the byte cap and yield values built from the input cut short
+    by it (F60)."""
+    io = fx.fn("live_events::LiveEvents::io_error")
+    ctx.saw(io)
+    errs = [b for b, i, adt, var, fl, ops, s_ in aggregates(io) if adt == "de_error::Error" and var == "IOError"]
+    sets = {}
+    for b, i, s_ in io.stmts():
+        if s_["k"] == "assign" and s_["p"]["pr"] and io.sym_rvalue(s_["rv"]) == ("const", True, "bool"):
+            sets.setdefault(render(io.sym_place(s_["p"])), []).append(b)
+    latch = [k for k, bs in sets.items() if errs and all(any(io.dominates(b, e) or b == e for b in bs) for e in errs)]
+    if not ctx.check(bool(errs) and len(latch) >= 1, "LATCH", "C10:LATCH:failure-is-remembered", "io_error() sets `%s` whenever it hands out the stored error" % (latch[0] if latch else "?"),
+                     "io_error() hands out the stored I/O error without recording that the input failed: the error is gone after one report and the iterators carry on", config, ctx.where(io)):
+        return
+    sk = fx.fn("live_events::LiveEvents::skip_to_next_document")
+    ctx.saw(sk)
+    pulls = [b for b, t in sk.calls() if fx.callee(t) == "live_events::SaphyrParser::next"]
+    guards = [(sb, tt, ff) for sb, sym, tt, ff in bool_switches(sk) if render(sym) in latch]
+    okk = bool(pulls) and bool(guards) and all(any(sk.edge_dominates(sb, ff, pb) for sb, tt, ff in guards) for pb in pulls)
+    # ... and the latched edge answers `false` without pulling
+    falses = [b for b, i, s_ in sk.stmts() if s_["k"] == "assign" and s_["p"]["l"] == 0 and not s_["p"]["pr"] and sk.sym_rvalue(s_["rv"]) == ("const", False, "bool")]
+    ans = all(must_pass(sk, [tt], falses) and not (set(pulls) & sk.reachable([tt])) for sb, tt, ff in guards)
+    ctx.check(okk and ans, "LATCH", "C10:LATCH:no-next-document-after-failure", "skip_to_next_document() pulls only while the input has not failed, and answers `false` once it has",
+              "skip_to_next_document() still looks for a next document after the input has failed: the parser may hold the start of a document buffered before the failure, and the iterator yields a value built from the truncated input after the error", config, ctx.where(sk))
+    # writers of the latch: io_error (true) and the constructors (aggregate) only
+    fld = latch[0].rsplit(".", 1)[-1]
+    extra = []
+    for g in fx.fns.values():
+        for b, i, s_ in g.stmts():
+            if s_["k"] == "assign" and s_["p"]["pr"] and render(g.sym_place(s_["p"])).endswith("." + fld) and g is not io:
+                extra.append(g.npath)
+    ctx.check(not extra, "LATCH", "C10:LATCH:who-writes", "the latch is written by io_error() only", "the failure latch is also written by %s (a reset would let the iterators carry on)" % sorted(set(extra)), config, ctx.where(io))
+
+
 def rule_discard(ctx, fx, config):
     n = 0
     allowed = 0
@@ -515,6 +555,7 @@ def run(ctx):
         n4 = proto.check_p4(ctx, fx, config) + proto.check_p4_iter(ctx, fx, config)
         ctx.floor("PROTO.p4", n4, 6, config)
         rule_skip_end(ctx, fx, config)
+        rule_failure_latched(ctx, fx, config)
         rule_discard(ctx, fx, config)
         rule_writer(ctx, fx, config)
         rule_read_ahead_bounded(ctx, fx, config)
